@@ -127,6 +127,10 @@ CONTENTS = [
     [("span", {"tts:fontStyle": "italic"}, ["Hello"]), " ", ("span", {"tts:fontWeight": "bold"}, ["world"])],
     # captions without a letter or digit (hesitation, music, a lone dash): displayed like any other
     ["..."], ["?!"], ["\u266a \u266a"], ["-", ("br",), "\u2014"],
+    # spans that carry no styling of their own (a language tag, an id, nothing at all) around breaks and nested spans
+    ["She said: ", ("span", {"xml:lang": "fr"}, ["bonjour", ("br",), "tout le monde"])],
+    [("span", {"xml:id": "s1"}, ["top ", ("span", {"tts:fontWeight": "bold"}, ["bold"]), ("br",), "bottom"]), ("br",), "last"],
+    [("span", {"tts:fontStyle": "italic"}, ["styled one", ("br",), "styled two"]), " ", ("span", {}, ["bare", ("br",), "span"])],
 ]
 
 
